@@ -5,6 +5,7 @@ use serde_json::Value;
 use std::collections::HashMap;
 
 pub const INF_DISTANCE: i64 = 10_000_000; // 10000 km in meter
+pub const MAX_DISTANCE: i64 = 1_000_000; // dead-head distances above 1000 km are reduced to it
 pub const OVERFLOW_DEPOT: &str = "OVERFLOW_DEPOT";
 pub const NOWHERE: &str = "NOWHERE";
 
@@ -353,6 +354,20 @@ impl Inst {
             latest - earliest
         };
         let horizon = (span + 86399) / 86400 * 86400;
+        // the loader's documented clamps: a dead-head trip never takes longer than the planning
+        // horizon and is never longer than 1000 km
+        let mut dh_dur = dh_dur;
+        let mut dh_dist = dh_dist;
+        for row in dh_dur.iter_mut() {
+            for d in row.iter_mut() {
+                *d = (*d).min(horizon);
+            }
+        }
+        for row in dh_dist.iter_mut() {
+            for d in row.iter_mut() {
+                *d = (*d).min(MAX_DISTANCE);
+            }
+        }
 
         Ok(Inst {
             types,
